@@ -25,10 +25,12 @@
 #include <algorithm>
 #include <chrono>
 #include <cstring>
+#include <dlfcn.h>
+#include <pthread.h>
 
 namespace {
 
-enum OpKind { OP_START, OP_WAIT, OP_POST, OP_JOIN, OP_CONT };
+enum OpKind { OP_START, OP_WAIT, OP_POST, OP_JOIN, OP_CONT, OP_UNLOCK };
 
 struct Th {
   int id;
@@ -46,6 +48,7 @@ std::vector<Th *> g_threads;
 std::map<void *, int> g_sem_id;
 std::vector<long> g_sem_count;
 bool g_on = false;
+char *g_obj_begin = NULL, *g_obj_end = NULL;   // the object under test: unlocking a mutex inside it is a scheduling point
 std::vector<std::string> g_trace;
 std::vector<int> g_branch;
 std::vector<int> g_choices;
@@ -112,6 +115,17 @@ int pv_sem_post(void *sem) {
   yield_op(OP_CONT, sem);
   return 1;
 }
+// std::mutex::unlock -> pthread_mutex_unlock: after a mutex that lives inside the object under test has been released
+// the thread yields ("unlock"), so that other threads can run between the end of a critical section and the code
+// that follows it.  No thread is ever parked while holding such a mutex.
+int pthread_mutex_unlock(pthread_mutex_t *m) {
+  typedef int (*fn_t)(pthread_mutex_t *);
+  static fn_t real = (fn_t)dlsym(RTLD_NEXT, "pthread_mutex_unlock");
+  int r = real(m);
+  char *a = reinterpret_cast<char *>(m);
+  if (g_obj_begin && a >= g_obj_begin && a < g_obj_end) yield_op(OP_UNLOCK, NULL);
+  return r;
+}
 void pv_thread_begin(void) {
   std::unique_lock<std::mutex> lk(g_mu);
   if (!g_on) return;
@@ -150,7 +164,7 @@ void pv_expect(int n) {
   g_ctl.wait(lk, [n] { return (int)g_threads.size() >= n; });
 }
 
-const char *opname(OpKind k) { return k == OP_START ? "start" : k == OP_WAIT ? "wait" : k == OP_POST ? "post" : k == OP_CONT ? "cont" : "join"; }
+const char *opname(OpKind k) { return k == OP_START ? "start" : k == OP_WAIT ? "wait" : k == OP_POST ? "post" : k == OP_CONT ? "cont" : k == OP_UNLOCK ? "unlock" : "join"; }
 
 void controller() {
   std::unique_lock<std::mutex> lk(g_mu);
@@ -171,6 +185,7 @@ void controller() {
         case OP_START: en = true; break;
         case OP_POST: en = true; break;
         case OP_CONT: en = true; break;
+        case OP_UNLOCK: en = true; break;
         case OP_WAIT: en = g_sem_count[g_sem_id[t->sem]] > 0; break;
         case OP_JOIN: {
           en = true;
@@ -245,15 +260,23 @@ int main(int argc, char **argv) {
   if (argc < 3) return 2;
   std::string kind = argv[1];
   g_on = true;
-  if (kind == "pcq" && argc == 6) {
+  if ((kind == "pcq" || kind == "pcqs") && argc == 6) {
+    const bool use_swap = kind == "pcqs";
     size_t cap = strtoul(argv[2], NULL, 10);
     std::vector<long> items = csv(argv[3]), quotas = csv(argv[4]);
     parse_choices(argv[5]);
     util::PCQueue<int> queue(cap);                 // semaphores 0 = empty_, 1 = used_
+    g_obj_begin = reinterpret_cast<char *>(&queue);
+    g_obj_end = g_obj_begin + sizeof(queue);
     std::vector<std::vector<int> > got(quotas.size());
     g_expected = (int)(items.size() + quotas.size());
     for (size_t i = 0; i < items.size(); ++i)
-      pv_spawn([&queue, &items, i]() { for (long k = 0; k < items[i]; ++k) queue.Produce((int)(i * 1000 + k)); });
+      pv_spawn([&queue, &items, i, use_swap]() {
+        for (long k = 0; k < items[i]; ++k) {
+          int v = (int)(i * 1000 + k);
+          if (use_swap) queue.ProduceSwap(v); else queue.Produce(v);
+        }
+      });
     for (size_t j = 0; j < quotas.size(); ++j)
       pv_spawn([&queue, &quotas, &got, j]() { for (long k = 0; k < quotas[j]; ++k) { int v; queue.Consume(v); got[j].push_back(v); } });
     controller();
@@ -273,19 +296,27 @@ int main(int argc, char **argv) {
     for (long k = 0; ok && k < n; ++k) ok = got[k] == k;
     finish(std::string(ok ? "fifo-ok " : "FIFO-BROKEN ") + std::to_string(got.size()));
   } else if (kind == "ring" && argc == 4) {
-    std::vector<long> sizes = csv(argv[2]);
+    // tokens: <n> = write() of n bytes; u<d> = operator<< of a d-digit uint64_t (Ensure(kToStringMaxBytes) may hand a
+    // short block over); c = operator<< of one char
+    std::vector<std::string> toks;
+    if (std::string(argv[2]) != "-") { std::istringstream is(argv[2]); std::string t; while (std::getline(is, t, ',')) if (!t.empty()) toks.push_back(t); }
     parse_choices(argv[3]);
     std::string file;
     g_expected = 1;
-    pv_spawn([&sizes, &file]() {
+    auto number = [](const std::string &t) { int d = atoi(t.c_str() + 1); if (d < 1) d = 1; if (d > 20) d = 20; uint64_t v = 1; for (int i = 1; i < d; ++i) v *= 10; return v; };
+    pv_spawn([&toks, &file, &number]() {
       unsigned char v = 0;
       {
         util::ThreadedBufferedStream<CollectWriter> out(&file);   // semaphores 0 = output_, 1 = trash_
         pv_expect(2);                                             // the writer thread has announced itself
-        for (long sz : sizes) {
-          std::string chunk((size_t)sz, 0);
-          for (char &c : chunk) c = (char)(v++ % 251);
-          out.write(chunk.data(), chunk.size());
+        for (const std::string &t : toks) {
+          if (t[0] == 'u') { out << number(t); }
+          else if (t[0] == 'c') { out << 'x'; }
+          else {
+            std::string chunk((size_t)strtol(t.c_str(), NULL, 10), 0);
+            for (char &c : chunk) c = (char)(v++ % 251);
+            out.write(chunk.data(), chunk.size());
+          }
         }
       }
     });
@@ -293,8 +324,14 @@ int main(int argc, char **argv) {
     // expected contents
     std::string want;
     unsigned char v = 0;
-    for (long sz : sizes) for (long k = 0; k < sz; ++k) want.push_back((char)(v++ % 251));
-    finish(std::string(file == want ? "bytes-ok " : "BYTES-DIFFER ") + std::to_string(file.size()));
+    for (const std::string &t : toks) {
+      if (t[0] == 'u') want += std::to_string(number(t));
+      else if (t[0] == 'c') want.push_back('x');
+      else for (long k = 0, n = strtol(t.c_str(), NULL, 10); k < n; ++k) want.push_back((char)(v++ % 251));
+    }
+    size_t diff = 0;
+    while (diff < file.size() && diff < want.size() && file[diff] == want[diff]) ++diff;
+    finish(std::string(file == want ? "bytes-ok " : "BYTES-DIFFER ") + std::to_string(file.size()) + (file == want ? "" : " want " + std::to_string(want.size()) + " first-difference-at " + std::to_string(diff)));
   } else return 2;
   return 0;
 }
